@@ -223,10 +223,13 @@ def task_fresh(a, env):
     r = R("each-operation-alone-in-a-fresh-interpreter")
     lits = _lits_from_json(a["lits"])
     fresh = {}
-    for name in a["ops"]:
-        recs = [fresh_run([name], lits, hs)[0] for hs in ("0", "1")]
-        r.ev += 2
-        r.transitions += 2
+    for oi, name in enumerate(a["ops"]):
+        # thorough: two interpreters (hash seeds 0 and 1) per operation; quick: one, the seed alternating
+        seeds = ("0", "1") if env["tier"] == "thorough" else (("0",) if (oi + a.get("parity", 0)) % 2 == 0 else ("1",))
+        recs = [fresh_run([name], lits, hs)[0] for hs in seeds]
+        recs = recs + recs[:1] if len(recs) == 1 else recs
+        r.ev += len(seeds)
+        r.transitions += len(seeds)
         r.dk.add(name)
         base = {"ops": [name], "lits": a["lits"], "expect": None}
         if recs[0]["result"] != recs[1]["result"]:
@@ -376,7 +379,7 @@ def run(ctx):
     for i in range(nt):
         ch = names[i::nt]
         if ch:
-            tasks.append(("fresh", {"ops": ch, "lits": lj, "sample": i == 0}))
+            tasks.append(("fresh", {"ops": ch, "lits": lj, "sample": i == 0, "parity": i}))
     res = ctx.pmap(ME, tasks)
     fresh = {}
     for r in res:
@@ -387,8 +390,14 @@ def run(ctx):
     # 2. histories in long-lived workers
     tasks = []
     pair_ops = cheap if q else names
+    micro = [n for n, c in ops if c == 0]
+    npairs = 0
     for i, x in enumerate(pair_ops):
-        tasks.append(("adjacent", {"as": [x], "bs": pair_ops, "lits": lj, "fresh": fresh, "sample": i == 0}))
+        # quick: every ordered pair that involves a micro operation (cost class 0); pairs of two cheap
+        # (class 1) operations are covered as subsequences by the total orders below. thorough: all pairs
+        bs = pair_ops if (not q or x in micro) else micro
+        npairs += len(bs)
+        tasks.append(("adjacent", {"as": [x], "bs": bs, "lits": lj, "fresh": fresh, "sample": i == 0}))
     for i, X in enumerate(costly):
         tasks.append(("sequence", {"sub": "everything-before-and-after-each-costly-operation",
                                    "seq": cheap + [X] + cheap + [X], "lits": lj, "fresh": fresh, "sample": i == 0}))
@@ -406,7 +415,7 @@ def run(ctx):
                 tasks.append(("sequence", {"sub": "adjacent-triples-of-micro-operations",
                                            "seq": [s for z in tri for s in (x, y, z)], "lits": lj, "fresh": fresh}))
     ctx.bounds = {"operations": len(names), "cheap": len(cheap), "costly": len(costly),
-                  "adjacent_pairs": len(pair_ops) ** 2, "depth": "2 (adjacent) + long sequences" if q else
+                  "adjacent_pairs": npairs, "depth": "2 (adjacent) + long sequences" if q else
                   "2 (all adjacent pairs), 3 (micro operations), long sequences"}
     tasks.sort(key=lambda t: -len(t[1].get("seq", [])) if t[0] == "sequence" else 0)
     ctx.pmap(ME, tasks)
